@@ -6,6 +6,10 @@ Obligations (unsat of the negation, parameters/constants fixed at their declared
   soundness     orig(x)=0  =>  simp(pi x)=0  and every recorded alias (a = +/-c) and recorded constant
   completeness  simp(x')=0 and recorded eliminations  =>  exists eliminated unknowns. orig(x', e)=0
 An exception or a logged warning from simplify() counts as reported failure (statement of C14).
+
+Model families: vk/simpfam.models() (base models and alias chains) and vk/simpfam.models_ext() (linked
+non-eliminable alias classes and alias cycles, every orientation of the pattern-matched equations, badly
+scaled affine systems); see cov["bounds"].
 """
 import logging
 import sys
@@ -212,6 +216,10 @@ def main():
         if args.tier == "quick" and mid.startswith("chain"):
             osets = [o for o in osets if len(o) <= 2 or "reduce_affine_expression" in o or len(o) >= 6]
         items += [(mid, text, o) for o in osets]
+    # extended classes: linked non-eliminable alias classes / alias cycles, equation orientations, badly scaled affine systems
+    ext = simpfam.models_ext(args.tier)
+    for mid, text, osets in ext:
+        items += [(mid, text, o) for o in osets]
     # chunk to amortise process start-up
     for col in run_parallel(work, items, args.jobs):
         rep.merge(col)
@@ -221,8 +229,29 @@ def main():
     cov["disagreements_checked"] = rep.queries.get("sat", 0)
     cov["functions_encoded"] = ["Model.simplify/_simplify_once (executed on real MX graphs)",
                                 "dae_residual_function / initial_residual_function before and after (SX DAG -> z3)"]
+    nfam = {}
+    for mid, _, osets in ext:
+        k = mid.split(":")[0]
+        nfam[k] = [nfam.get(k, [0, 0])[0] + 1, nfam.get(k, [0, 0])[1] + len(osets)]
+    cov["extended_family_models_and_pairs"] = nfam
+    for k in nfam:  # one written-out member of each extended class
+        mid, text, osets = next(e for e in ext if e[0].startswith(k + ":"))
+        rep.sample({"model": mid, "options": osets[0], "model_text": text}, 12)
     cov["bounds"] = ("models: base, affine, ifelse, deralias, paramalias + alias chains of length 2..3 (thorough 4), every sign pattern, head = expression/state/input; "
-                     "option sets: all 64 subsets of the six interacting options + 9 further sets (+3 with reduce_affine_expression on affine models); unknowns unbounded reals")
+                     "option sets: all 64 subsets of the six interacting options + 9 further sets (+3 with reduce_affine_expression on affine models). "
+                     "Extended classes (vk/simpfam.models_ext): "
+                     "link = an algebraic alias class tied to two non-eliminable variables, 11 head pairs out of {state, 2nd state, der-state, input, 2nd input, "
+                     "parameter, 2nd parameter, constant, same head twice}, shape direct (a=+-H1; a=+-H2) or chain (a=+-H1; b=+-H2; a=+-b), all sign patterns and "
+                     "all equation orders in thorough (quick: all signs and first/reversed order for 5 main pairs, 2-3 sign patterns for the other 6), plus alias cycles "
+                     "of length 2 and 3 among algebraic variables only (redundant and contradictory), under detect_aliases alone / with all six / and (main pairs) with "
+                     "expand_mx, constant elimination, allow_derivative_aliases=False, affine reduction (thorough: + expand_vectors, factor_and_simplify, iterative, eliminable regex); "
+                     "orient = constant assignment + signed alias + eliminable-variable assignment each written in 15 orientations "
+                     "(V=E, E=V, V-E=0, E-V=0, 0=V-E, 0=E-V, V+N=0, N+V=0, 0=V+N, -V=N, N=-V, k(V-E)=0, (V-E)/k=0, kV=kE, -(V-E)=0) x constant in {3, -0.25, 0, 1.5e-3} x alias sign "
+                     "(quick 3 of the 8 value/sign variants) under 8 option sets (thorough: all 63 non-empty subsets of the six options + 2 for two variants); "
+                     "scale = affine systems with one coefficient of magnitude 2^-30 or -2.5e-9 (thorough also 2^-27, 2^-26, 2^-40, 2^30, 1e-12) written as literal / parameter / "
+                     "constant / parameter*constant product in front of an algebraic variable / state / der-state / input, under reduce_affine_expression with each combination of "
+                     "replace_parameter_values and replace_constant_values, and with alias+constant elimination (thorough 11 option sets); no initial equations in this class. "
+                     "unknowns unbounded reals")
     rep.assumptions += ["parameters/constants fixed at their declared values; unspecified (NaN) parameters free",
                         "real arithmetic; divisors non-zero", "a logged warning or exception from simplify() is 'reported failure'"]
     if not cov.get("pairs"):
